@@ -128,8 +128,9 @@ impl<T: Alignment> Write for AlignedCursor<T> {
         }
 
         let cap = self.vec.len().saturating_mul(std::mem::size_of::<T>());
-        let rem = cap - self.pos;
-        if rem < len {
+        // `self.pos` may be past the capacity (after `set_position` or `seek`):
+        // `self.pos + len` cannot overflow because `len <= usize::MAX - self.pos`.
+        if self.pos + len > cap {
             self.vec.resize(
                 (self.pos + len).div_ceil(std::mem::size_of::<T>()),
                 T::default(),
